@@ -14,11 +14,13 @@ def opt (b : Bool) (s : String) : List String := if b then [s] else []
 /-- Point.create_node, file_writer_xml.py:1034-1046 -/
 def pointKids (hasZ : Bool) : List String := ["x", "y"] ++ opt hasZ "z"
 
-/-- RectangleXMLNode.create_rectangle_node, :776-798 (`dyn` = dynamic_obstacle_shape) -/
-def rectangleKids (dyn : Bool) : List String := ["length", "width"] ++ (if dyn then [] else ["orientation", "center"])
+/-- RectangleXMLNode.create_rectangle_node (`dyn` = dynamic_obstacle_shape; for the shape of a dynamic obstacle the
+    orientation is written iff `oriSet` = `rectangle.orientation != 0.0`, the center iff `ctrSet` = some coordinate != 0.0) -/
+def rectangleKids (dyn oriSet ctrSet : Bool) : List String :=
+  ["length", "width"] ++ opt (!dyn || oriSet) "orientation" ++ opt (!dyn || ctrSet) "center"
 
-/-- CircleXMLNode.create_circle_node, :810-825 -/
-def circleKids (dyn : Bool) : List String := ["radius"] ++ (if dyn then [] else ["center"])
+/-- CircleXMLNode.create_circle_node (center of a dynamic obstacle's shape only if `ctrSet` = some coordinate != 0.0) -/
+def circleKids (dyn ctrSet : Bool) : List String := ["radius"] ++ opt (!dyn || ctrSet) "center"
 
 /-- PolygonXMLNode.create_polygon_node, :837-840 -/
 def polygonKids (n : Nat) : List String := rep n "point"
@@ -120,9 +122,9 @@ def signalSeriesKids (n : Nat) : List String := rep n "signalState"
 /-- create_exact_node_* / create_interval_node_*, :77-132 -/
 def valueKids (interval : Bool) : List String := if interval then ["intervalStart", "intervalEnd"] else ["exact"]
 
-/-- SignalStateXMLNode.create_signal_state_node, :1271-1300 (horn is never written) -/
-def signalStateKids (il ir bl hz fb : Bool) : List String :=
-  ["time"] ++ opt il "indicatorLeft" ++ opt ir "indicatorRight" ++ opt bl "brakingLights" ++
+/-- SignalStateXMLNode.create_signal_state_node: `time`, then whichever of the six flags the signal state has -/
+def signalStateKids (horn il ir bl hz fb : Bool) : List String :=
+  ["time"] ++ opt horn "horn" ++ opt il "indicatorLeft" ++ opt ir "indicatorRight" ++ opt bl "brakingLights" ++
   opt hz "hazardWarningLights" ++ opt fb "flashingBlueLights"
 
 /-- StateXMLNode._map_to_xml_prop, :966-978, on the attribute names the state classes define -/
@@ -190,10 +192,12 @@ def leaf (n : String) (t : Str) : Xml := .node n [] t []
 def pointNode (tag : String) (x y : Str) (z : Option Str) : Xml :=
   .node tag [] [] ([leaf "x" x, leaf "y" y] ++ (match z with | some z => [leaf "z" z] | none => []))
 
-/-- RectangleXMLNode.create_rectangle_node: `oc = none` for dynamic-obstacle shapes -/
-def rectangleNode (l w : Str) (oc : Option (Str × Str × Str)) : Xml :=
+/-- RectangleXMLNode.create_rectangle_node: orientation and center are both present outside dynamic-obstacle shapes,
+    and independently present / absent inside them -/
+def rectangleNode (l w : Str) (o : Option Str) (c : Option (Str × Str)) : Xml :=
   .node "rectangle" [] [] ([leaf "length" l, leaf "width" w] ++
-    (match oc with | some (o, cx, cy) => [leaf "orientation" o, pointNode "center" cx cy none] | none => []))
+    (match o with | some o => [leaf "orientation" o] | none => []) ++
+    (match c with | some (cx, cy) => [pointNode "center" cx cy none] | none => []))
 
 /-- CircleXMLNode.create_circle_node -/
 def circleNode (r : Str) (c : Option (Str × Str)) : Xml :=
